@@ -201,11 +201,12 @@ class NodePredict(Contract):
 
 
 META = dict(
-    level="proof", assumptions=["A1", "A2", "A6", "A7", "A9"],
+    level="proof", lean_files=["lemmas/Sums.lean"], assumptions=["A1", "A2", "A6", "A7", "A9"],
     trusted=["estimator protocol: predict_proba of a fitted binary classifier is a deterministic row-wise function with two columns",
              "boolean-mask gather/scatter lemmas (rank/unrank); ghost functions P / onpath are defined by their one-level unfolding (induction on subtree height)"],
-    not_applicable=["fit_improve (intercept search), get_leaves_index / enumerate_leaves_index (recursive generator), rows summing to one (property of the "
-                    "member classifiers): bounded stand-in.  Proved about fit: the recursive node fit (real closure _fit_side, real recursion with a "
+    not_applicable=["fit_improve (intercept search), rows summing to one (property of the member classifiers): bounded stand-in.  enumerate_leaves_index "
+                    "(recursive generator): proved on five tree shapes (bounded in the shape, complete in the node indices), sorted() in get_leaves_index "
+                    "is the bounded stand-in's.  Proved about fit: the recursive node fit (real closure _fit_side, real recursion with a "
                     "decreases clause max_depth - depth) builds a WELL-NUMBERED subtree - every index in [index, returned value], parents before children, "
                     "all of `above` before all of `below`, depth of a child = depth + 1 <= max_depth - and _fit_parallel makes the root node 0 at depth 1 "
                     "with n_nodes_ = returned value + 1; by induction on the tree (one-level unfolding of the ghost predicate) all node indices are "
@@ -351,3 +352,60 @@ class FitParallel(Contract):
             out["root_is_node_zero_at_depth_one"] = z3.And(z(root.fields["index"]) == 0, z(root.fields["depth"]) == 1)
             out["tree_well_numbered_and_n_nodes_is_last_index_plus_one"] = z3.And(okF(pid), z(s.fields["n_nodes_"]) == hiF(pid) + 1, hiF(pid) >= 0)
         return out
+
+
+# ----------------------------------------------------------------------------------------------------------------------
+# get_leaves_index: the nodes at which a path can END (a node with a missing side takes the rows of that side itself).
+# Bounded in the SHAPE of the tree (the shapes below, real recursion of the generator), complete in the node indices.
+LEAVES_SHAPES = {
+    "single": (None, None),
+    "above_only": ((None, None), None),
+    "below_only": (None, (None, None)),
+    "both": ((None, None), (None, None)),
+    "mixed": (((None, None), None), (None, ((None, None), (None, None)))),
+}
+
+
+def _build(E, shape, name="n"):
+    o = node(E, name)
+    if shape[0] is not None:
+        o.fields["above"] = _build(E, shape[0], name + "a")
+    if shape[1] is not None:
+        o.fields["below"] = _build(E, shape[1], name + "b")
+    return o
+
+
+def _terminal_spec(o, childless_only=False):
+    ab, be = o.fields["above"], o.fields["below"]
+    here = (ab is None and be is None) if childless_only else (ab is None or be is None)
+    out = [o.fields["index"]] if here else []
+    for ch in (ab, be):
+        if ch is not None:
+            out += _terminal_spec(ch, childless_only)
+    return out
+
+
+@contract(F + "::_DecisionTreeLogisticRegressionNode.enumerate_leaves_index", "C10")
+class EnumerateLeaves(Contract):
+    """yields the index of every node where a row's path can end - every node lacking at least one side - once, parents first,
+    `above` before `below`"""
+    variants = list(LEAVES_SHAPES)
+
+    def setup(self, E, v):
+        return dict(self=_build(E, LEAVES_SHAPES[v]))
+
+    def ensures(self, E, a, res, old, childless_only=False):
+        from pyvc.engine import GenResult
+        ok = isinstance(res, GenResult)
+        out = {"a_sequence": z3.BoolVal(ok)}
+        if not ok:
+            return out
+        items = list(res.items)
+        spec = _terminal_spec(a.self, childless_only)
+        out["every_node_lacking_a_side_once_parents_first"] = z3.And(z3.BoolVal(len(items) == len(spec)), *[
+            z(i) == z(s) for i, s in zip(items, spec)]) if len(items) == len(spec) else z3.BoolVal(False)
+        return out
+
+    canaries = {"only_nodes_without_any_child": lambda E, a, res, old: EnumerateLeaves().ensures(E, a, res, old, childless_only=True)[
+        "every_node_lacking_a_side_once_parents_first"] if any(
+            (o is not None) for o in (a.self.fields["above"], a.self.fields["below"])) and len(_terminal_spec(a.self)) != len(_terminal_spec(a.self, True)) else z3.BoolVal(False)}
